@@ -284,6 +284,10 @@ func (s *clientSocket) Disconnect() {
 	if connected {
 		s.state = clientSocketConnStateDisconnected
 	}
+	// The socket is taken off the manager's events together with the change of the state.
+	// An open handler that is already on its way (see `registerSubEvents`) must not find a
+	// socket that is disconnected but still active: it would send a CONNECT packet.
+	s.deregisterSubEvents()
 	s.stateMu.Unlock()
 
 	// While the reply to the CONNECT packet is pending, the DISCONNECT packet is not sent here.
